@@ -49,7 +49,7 @@ Proof. vm_compute. split; reflexivity. Qed.
 
 (* ---- budget half: theorems over Model/VM.v (validated against the real VM by K2 incl. exact NumOpCount) ---- *)
 From Coq Require Import ZArith.
-From DS Require Import Model.Value Model.VM Model.CodeWf Proofs.VMSafety Proofs.VMDepth.
+From DS Require Import Model.Value Model.VM Model.CodeWf Proofs.VMSafety Proofs.VMDepth Proofs.DiceCharge.
 Open Scope Z_scope.
 
 (* numOpCountAdd: never lowers the counter, never wraps (saturates), reports "over" exactly when a positive limit is exceeded *)
@@ -93,3 +93,27 @@ Print Assumptions C07_call_depth_bounded.
    C07_wod_dc_rounds_charged(_step), C07_call_costs_100, C07_computed_costs_100, C07_run_dispatch_bound;
    Proofs/VMDepth.v: exec_depth_fst, C07_call_depth_bounded (chain within int64: bound + 1), C07_call_depth_bounded_100,
    C07_run_call_depth (the machine `run` starts: depth <= L/101), C07_callee_start_counter, examples attaining the bound. *)
+
+(* ---- "... and every die rolled" (Proofs/DiceCharge.v).  `exec_dice` is `exec` with a count of the dice rolled (one die = one
+   trip of a rolling loop, i.e. one call of Roll.roll; sub-VM activations of functions and computed values included); it is the
+   same execution (first component).  With a budget L, for every program, state and fuel, the dice rolled by a run are bounded
+   by what is left of the budget — no slack — and are paid for by the counter.  Every dice operator charges BEFORE it rolls
+   (XdY: times; CoC: the bonus / penalty dice, the d100 is the instruction's own unit; Fate: 4 — after the repair e3db4d5, before
+   it charged nothing and this bound was refuted by four `f` under a budget of 3; WoD / Double Cross: the pool of each round at
+   the start of that round) and rolls nothing when the charge exceeds the budget.  `chain_in_budget` (every calling context's
+   counter is an int64 within the budget) is established by `run` and kept by every step; it cannot be dropped
+   (C07_dice_bound_needs_chain_in_budget in Proofs/DiceCharge.v). *)
+Theorem C07_dice_bounded_by_budget : forall E L, cfg_op_limit (e_cfg E) = L -> 0 < L <= MaxInt64 - 100 ->
+  forall fuel m, w_chain (m_w m) <> nil -> dice_ok (m_fr m) -> chain_in_budget L (m_w m) ->
+  fst (exec_dice fuel E m) = exec fuel E m /\
+  Z.of_nat (snd (exec_dice fuel E m)) <= Z.max 0 (L - ops_of (m_w m)).
+Proof. exact Proofs.DiceCharge.C07_dice_bounded_by_budget. Qed.
+
+Theorem C07_dice_paid_by_counter : forall E L, cfg_op_limit (e_cfg E) = L -> 0 < L <= MaxInt64 - 100 ->
+  forall fuel m m', w_chain (m_w m) <> nil -> dice_ok (m_fr m) -> chain_in_budget L (m_w m) ->
+  exec fuel E m = Fin m' ->
+  Z.of_nat (snd (exec_dice fuel E m)) <= ops_of (m_w m') - ops_of (m_w m).
+Proof. exact Proofs.DiceCharge.C07_dice_paid_by_counter. Qed.
+
+Print Assumptions C07_dice_bounded_by_budget.
+Print Assumptions C07_dice_paid_by_counter.
